@@ -13,21 +13,32 @@ Generators : (a) vlib.pygen programs rendered by CPython's unparser and restyled
              the inputs of xonsh's own parser and formatter tests, and a sample of stdlib statements;
              (e) untokenisable inputs (unterminated triple-quoted string / f-string, unclosed
              bracket, inconsistent dedent) appended to or injected into valid programs.
-Oracle     : precondition: the input parses with xonsh's context-aware entry
-             `Execer.parse(src, ctx=set())` (the same entry for input and output); for family (a)
-             additionally the C01 oracle holds and no recorded C01 shape occurs.  Then
+Oracle     : precondition: the input parses with xonsh's context-aware entry `Execer.parse(src, ctx)`
+             (the same entry and the same ctx for input and output).  ctx=set() for xonsh text
+             (families b, d-if-not-Python): every statement that can be a command is one; for plain
+             Python (families a, stdlib, Python snippets of d) every identifier of the source is a
+             known name - the reading CPython gives it - because under ctx=set() xonsh turns
+             expression statements, and/or/not operands and multi-line calls of Python programs
+             into commands and often drops parts of them; mixtures (c) know the identifiers of the
+             embedded Python.  Family (a) additionally passes the C01 oracle and holds no recorded
+             C01 shape.  Inputs whose tree does not account for every identifier of the text
+             (xonsh's recovery dropped part of a statement) are skipped and counted.  Then
              out = format_source(src) must (1) parse, (2) to the same location-free canonical tree
              (vlib.astcanon: every constant compared by type and repr, so string contents,
-             subprocess argument strings and macro bodies are compared byte for byte), (3) with the
-             same sequence of comment texts (xonsh's tokenizer), (4) format_source(out) == out.
+             subprocess argument strings and macro bodies are compared byte for byte; only the text
+             of a `( ... )` subshell, itself a xonsh program, is compared by its own tree), (3) with
+             the same sequence of comment texts (xonsh's tokenizer), (4) format_source(out) == out.
              For (e): format_source raises FormatError, `xonsh.formatter.cli.main` returns 123 and
              leaves the file byte-identical; --check / --diff never write and return the documented
-             codes; the default mode writes exactly format_source's result.
+             codes; the default mode and `-` write exactly format_source's result.
 Attribution: a failing (src, out) pair is delta-debugged over the formatter's own edits
-             (vlib.c17_analysis): the 1-minimal set of edits that still breaks the oracle is
-             described as (formatter rule class, lexical context) pairs; independent defects in one
-             input are peeled off one after the other.  Recorded findings are narrow predicates
-             over that description (vlib.c17_findings).
+             (vlib.c17_analysis): which edits have to be taken back for the rest to be right (maximal
+             passing subset by bisection; the indentation of all logical lines is one unit); every
+             such edit is described as (formatter rule class, shape, lexical context).  Recorded
+             findings are narrow predicates over that description (vlib.c17_findings); an edit that
+             cannot matter under any reading (one run of blanks replaced by another, blanks removed
+             at a line end, ...) but changes xonsh's tree is the parser's blank-sensitivity, counted
+             and sampled in the notes, not a formatter failure.
 """
 
 from __future__ import annotations
@@ -48,9 +59,10 @@ HOOKS = False
 RULE = ("source text from (a) generated Python ASTs in random surface styles with injected multi-line literals, (b) generated "
         "xonsh command lines / macros / captures, (c) both mixed in nested blocks with random indent units, blank-line runs and "
         "comments, (d) repository *.xsh files, docs code blocks, xonsh parser/formatter test inputs and stdlib statements, "
-        "(e) untokenisable variants; each input that xonsh's Execer.parse(ctx=set()) accepts is formatted and the output must parse "
-        "to the same canonical tree with the same comment sequence and be a fixed point; non-trivial = the formatter changed the "
-        "text and the source has >= 2 logical lines (or, for family (e), the tokenizer really rejects the text); "
+        "(e) untokenisable variants + the command line's write discipline; each input that xonsh's Execer.parse accepts (ctx=set() "
+        "for xonsh text, all identifiers known for plain Python) is formatted and the output must parse to the same canonical tree "
+        "with the same comment sequence and be a fixed point; non-trivial = the formatter changed the text and the source has >= 2 "
+        "logical lines (family (e): the tokenizer really rejects the text, or the formatter would change the file); "
         "distinct = hash of the source text")
 
 CASE_SECONDS = 20
@@ -186,18 +198,27 @@ def _accounts_for_names(src, tree):
     if not want:
         return True
     # a backslash-newline glued to a word joins it with the next one (`a\<newline>b` is the word `ab`)
+    # ... and inside [ ] xonsh glues the words of a command argument together (`[ a   b ]` is `[ab]`)
     joined = set()
+    sq = 0
     for i, t in enumerate(toks):
         if t.type == xtok.ERRORTOKEN and t.string.endswith("\n"):
             if i > 0 and toks[i - 1].end == t.start:
                 joined.add(toks[i - 1].string)
             if i + 1 < len(toks) and toks[i + 1].start[1] == 0:
                 joined.add(toks[i + 1].string)
+        elif t.type == xtok.OP and t.string == "[":
+            sq += 1
+        elif t.type == xtok.OP and t.string == "]":
+            sq = max(0, sq - 1)
+        elif t.type == xtok.NAME and sq and i + 1 < len(toks) and toks[i + 1].type in (xtok.NAME, xtok.NUMBER):
+            joined.add(t.string)
+            joined.add(toks[i + 1].string)
     try:
         text = ast.unparse(tree)
     except Exception:  # noqa: BLE001
         return True
-    text = re.sub(r"__xonsh__\.\w+|__import__|globals\(\)|locals\(\)|in_boolop=True", " ", text)
+    text = re.sub(r"__xonsh__\.\w+|__import__|globals\(\)|locals\(\)|in_boolop=True|\\[ntrfvx0]", " ", text)
     have = Counter(re.findall(r"[A-Za-z_][A-Za-z0-9_]*", text))
     for name, n in want.items():
         if have.get(name, 0) < n and not (name in joined and text.count(name) >= n):
@@ -286,7 +307,8 @@ def check_source(src, family="?", reduce=True, want_labels=True, tolerate=True, 
     res = Result()
     st["names"] = reading(src, ctx)
     st["ctx"] = ctx
-    signal.alarm(CASE_SECONDS)
+    # (re-armed every 5 s: an exception raised inside a garbage-collection callback is swallowed by the interpreter)
+    signal.setitimer(signal.ITIMER_REAL, CASE_SECONDS, 5)
     try:
         try:
             tree = xparse(src)
@@ -374,7 +396,7 @@ def check_source(src, family="?", reduce=True, want_labels=True, tolerate=True, 
         res.status = "inconclusive"
         return res
     finally:
-        signal.alarm(0)
+        signal.setitimer(signal.ITIMER_REAL, 0)
 
 
 def _units(script, det):
@@ -688,6 +710,9 @@ def ml_literal(rnd, allow_trailing_blank):
     q = ['"""', "'''"][rnd.randrange(2)]
     n = 1 + rnd.randrange(4)
     lines = [ML_LINES[rnd.randrange(len(ML_LINES))] for _ in range(n + 1)]
+    if rnd.randrange(4) == 0:
+        at = rnd.randrange(len(lines) + 1)
+        lines[at:at] = [""] * (2 + rnd.randrange(4))          # a run of empty lines inside the literal
     fstr = rnd.randrange(3) == 0
     if fstr:
         lines = [ln.replace("{x}", "{x}").replace("\\", "") for ln in lines]
@@ -1246,13 +1271,20 @@ def main(run):
     if tot and st.hist.get("skip:formatter-rejects-parsable-input", 0) > 0.2 * tot:
         raise common.HarnessError("the formatter rejects more than 20%% of the parsable inputs: the run says nothing")
     run.assumptions += [
-        "meaning = xonsh's own parse through Execer.parse(src, ctx=set()), i.e. every name is unknown, so every expression statement "
-        "that can be read as a command is a command (the reading under which blanks matter most)",
-        "inputs the parser rejects or crashes on, inputs failing the C01 oracle or containing a recorded C01 shape, and parsable "
-        "inputs the formatter refuses with FormatError are skipped and counted, not judged",
-        "a tree difference whose only necessary formatter edit replaces one non-empty run of blanks between two tokens of a line by "
-        "another (outside macro bodies, strings and f-strings) is a blank-sensitivity of the parser (e.g. a tab before a trailing comment "
-        "on a command line), not a formatter defect: counted under 'parser-blank-sensitive', samples in notes",
+        "meaning = xonsh's own parse through Execer.parse(src, ctx), same ctx for input and output: ctx=set() for xonsh text (every "
+        "name unknown, so every statement that can be read as a command is one - the reading under which blanks matter most); all "
+        "identifiers of the source known for text that CPython accepts (plain Python is read as Python); the identifiers of the "
+        "embedded Python statements known for mixtures",
+        "inputs the parser rejects or crashes on, inputs whose tree does not mention every identifier of the text (xonsh's recovery "
+        "dropped part of a statement, e.g. `x-y z || tar` -> command `tar`), Python inputs failing the C01 oracle or containing a "
+        "recorded C01 shape, and parsable inputs the formatter refuses with FormatError are skipped and counted, not judged; the same "
+        "token accounting is applied to xonsh's tree of the formatted text",
+        "a tree difference whose only necessary formatter edits cannot matter under any reading of the syntax (a non-empty run of "
+        "blanks between two tokens of a line replaced by another, blanks removed at a line end, blank lines removed, a comment-only "
+        "line re-indented; outside macro bodies, strings and f-strings) is a blank-sensitivity of the parser (e.g. a tab before a "
+        "trailing comment on a command line), not a formatter defect: counted under 'exempt:*', samples in notes",
+        "for text CPython accepts, CPython's parser is the referee when xonsh's two parses disagree although the edits are in Python text",
+        "the text of a `( ... )` subshell is compared by its own tree (it is a xonsh program handed to `xonsh -c`), not byte for byte",
         "carriage returns, form feeds, BOMs and non-UTF-8 files are out of domain (the CLI reads with universal newlines)",
         "comment text is compared after stripping blanks at both ends (the formatter documents trailing-blank removal)",
     ]
